@@ -70,8 +70,20 @@ def call_kwargs(a, x, *, for_response=False):
     if a["ma_kind"] != "none":
         kw["max_age"] = _ma_value(a, x)
     if a["exp_kind"] == "dt":
-        tz = None if x.get("exp_naive") else timezone.utc
-        kw["expires"] = datetime(1970, 1, 1, tzinfo=tz) + timedelta(days=a["exp_days"], seconds=a["exp_secs"])
+        # the requested instant is (exp_days, exp_secs); how it is handed over is a harness detail: naive (= UTC, as documented),
+        # aware UTC, a fixed offset ("+05:30"), or a zoneinfo zone ("zone:Europe/Berlin")
+        inst = datetime(1970, 1, 1, tzinfo=timezone.utc) + timedelta(days=a["exp_days"], seconds=a["exp_secs"])
+        spec = x.get("exp_tz") or ("naive" if x.get("exp_naive") else "utc")
+        if spec == "naive":
+            inst = inst.replace(tzinfo=None)
+        elif spec.startswith("zone:"):
+            import zoneinfo
+
+            inst = inst.astimezone(zoneinfo.ZoneInfo(spec[5:]))
+        elif spec != "utc":
+            sign = -1 if spec[0] == "-" else 1
+            inst = inst.astimezone(timezone(sign * timedelta(hours=int(spec[1:3]), minutes=int(spec[4:6]))))
+        kw["expires"] = inst
     elif a["exp_kind"] == "ts":
         ts = a["exp_days"] * 86400 + a["exp_secs"]
         kw["expires"] = float(ts) if x.get("exp_float") else ts
@@ -90,6 +102,34 @@ def call_kwargs(a, x, *, for_response=False):
 def _clock():
     t = int(time.time())
     return t // 86400, t % 86400
+
+
+NO_JX = {"want": False, "has": False, "exp_set": False, "exp_days": 0, "exp_secs": 0, "ma_set": False, "ma_neg": False, "ma_digits": [0]}
+
+
+class process_tz:
+    """run a block with the process time zone set (TZ + tzset), restored afterwards"""
+
+    def __init__(self, tz):
+        self.tz = tz
+
+    def __enter__(self):
+        import os
+
+        if self.tz:
+            self.old = os.environ.get("TZ")
+            os.environ["TZ"] = self.tz
+            time.tzset()
+
+    def __exit__(self, *exc):
+        import os
+
+        if self.tz:
+            if self.old is None:
+                os.environ.pop("TZ", None)
+            else:
+                os.environ["TZ"] = self.old
+            time.tzset()
 
 
 def _pairs(md):
@@ -117,11 +157,11 @@ def run_dump(case):
         if not a["path_set"]:
             a.update(path_set=True, path=cps("/"))
     line = {"op": "dump", "flow": via, "key": case["key"], "value": case["value"], "a": a, "exc": "", "hdr": [],
-            "full": [], "req": [], "ps": [], "pe": [], "perr": ""}
+            "full": [], "req": [], "ps": [], "pe": [], "perr": "", "jx": dict(NO_JX)}
     line["t0d"], line["t0s"] = _clock()
     hdr = None
     try:
-        with warnings.catch_warnings():
+        with warnings.catch_warnings(), process_tz(x.get("proc_tz")):
             warnings.simplefilter("ignore")
             if via in ("response", "response-delete"):
                 from werkzeug.wrappers import Response
@@ -145,11 +185,24 @@ def run_dump(case):
 
                 kw = call_kwargs(a, x)
                 wtest.dump_cookie = recording
+                client = wtest.Client(lambda e, s: None)
                 try:
-                    wtest.Client(lambda e, s: None).set_cookie(key, value, domain=kw.pop("domain"), path=kw.pop("path"), max_size=0, **kw)
+                    client.set_cookie(key, value, domain=kw.pop("domain"), path=kw.pop("path"), max_size=0, **kw)
                 finally:
                     wtest.dump_cookie = orig
                 hdr = seen[0]
+                if x.get("jar_lookup"):  # only for plain lower-case ASCII domains and unreserved paths: the key is the argument itself
+                    jx = line["jx"]
+                    jx["want"] = True
+                    got = client.get_cookie(key, domain=text(a["domain"]), path=text(a["path"]))
+                    if got is not None:
+                        jx["has"] = True
+                        if got.expires is not None:
+                            e = got.expires if got.expires.tzinfo is not None else got.expires.replace(tzinfo=timezone.utc)
+                            d = e - datetime(1970, 1, 1, tzinfo=timezone.utc)  # aware arithmetic, independent of the process time zone
+                            jx.update(exp_set=True, exp_days=d.days, exp_secs=d.seconds)
+                        if got.max_age is not None:
+                            jx.update(ma_set=True, ma_neg=got.max_age < 0, ma_digits=[int(c) for c in str(abs(got.max_age))])
             else:
                 hdr = http.dump_cookie(key, value, max_size=0, **call_kwargs(a, x))
     except Exception as e:
@@ -652,7 +705,7 @@ def dump_line_from_record(rec):
     from werkzeug.sansio import http as sansio_http
 
     line = {"op": "dump", "flow": "repo-tests:" + rec["via"], "key": cps(rec["key"]), "value": cps(rec["value"]), "a": rec["a"], "exc": rec["exc"],
-            "hdr": cps(rec["hdr"]), "full": [], "req": [], "ps": [], "pe": [], "perr": "",
+            "hdr": cps(rec["hdr"]), "full": [], "req": [], "ps": [], "pe": [], "perr": "", "jx": dict(NO_JX),
             "t0d": rec["t0"] // 86400, "t0s": rec["t0"] % 86400, "t1d": rec["t1"] // 86400, "t1s": rec["t1"] % 86400}
     if rec["exc"] == "":
         req = rec["hdr"].split(";", 1)[0]
@@ -796,4 +849,65 @@ def path_product(thorough=False):
                     a.update(dom_set=True, domain=cps("example.com"))
                 cases.append({"key": cps("k"), "value": cps("v"), "a": a, "x": {"via": flow}})
             n += 1
+    return cases
+
+
+# ====================================================================== Expires / Max-Age value kinds x process time zone
+TIME_TZSPECS = ["naive", "utc", "+05:30", "-08:00", "+14:00", "-12:00", "zone:America/New_York", "zone:Europe/Berlin", "zone:Asia/Kolkata",
+                "zone:Australia/Lord_Howe"]
+PROC_TZS = ["UTC", "EST+5", "Asia/Kolkata"]
+
+
+def _time_instants():
+    """(days, secs) of instants at DST edges of the zones above (+-1 s), calendar corners, and ordinary times"""
+    utc = timezone.utc
+    edges = [datetime(2026, 3, 8, 7, 0, tzinfo=utc), datetime(2026, 11, 1, 6, 0, tzinfo=utc), datetime(2026, 3, 29, 1, 0, tzinfo=utc),
+             datetime(2026, 10, 25, 1, 0, tzinfo=utc), datetime(2026, 4, 4, 15, 0, tzinfo=utc), datetime(2026, 10, 3, 15, 30, tzinfo=utc)]
+    pts = []
+    for e in edges:
+        pts += [e - timedelta(seconds=1), e, e + timedelta(seconds=1)]
+    pts += [datetime(1970, 1, 1, 0, 0, 1, tzinfo=utc), datetime(2000, 2, 29, 23, 59, 59, tzinfo=utc), datetime(2026, 7, 15, 12, 34, 56, tzinfo=utc),
+            datetime(2026, 12, 31, 23, 59, 59, tzinfo=utc), datetime(2027, 1, 1, 0, 0, 0, tzinfo=utc), datetime(2038, 1, 19, 3, 14, 8, tzinfo=utc),
+            datetime(9999, 12, 30, 11, 59, 59, tzinfo=utc), datetime(2024, 2, 29, 5, 29, 59, tzinfo=utc), datetime(2026, 6, 1, 18, 30, 0, tzinfo=utc)]
+    out = []
+    for p in pts:
+        d = p - datetime(1970, 1, 1, tzinfo=utc)
+        out.append((d.days, d.seconds))
+    return out
+
+
+def time_product(thorough=False):
+    """Expires kinds (naive / aware in several zones / timestamp int, float, 0 / string / absent) x Max-Age kinds (absent, int, timedelta,
+    0, negative) x process time zone x call path.  Quick: flows and Max-Age kinds rotate; thorough: the full product of flows."""
+    flows = ["dump_cookie", "response", "client"]
+    mas = [("none", False, [0], 0), ("int", False, [3, 6, 0, 0], 0), ("td", False, [3, 6, 0, 1], 500000), ("int", False, [0], 0),
+           ("int", True, [6, 0], 0), ("td", True, [8, 6, 4, 0, 0], 0)]
+    cases, n = [], 0
+
+    def add(a_kw, x_kw, flow):
+        a = attrs(path_set=True, path=cps("/"), dom_set=True, domain=cps("example.com"), **a_kw)
+        cases.append({"key": cps("k"), "value": cps("v"), "a": a, "x": dict(x_kw, via=flow, jar_lookup=flow == "client")})
+
+    for ptz in PROC_TZS:
+        for (d, s) in _time_instants():
+            for spec in TIME_TZSPECS:
+                kind, neg, digits, us = mas[n % len(mas)]
+                for flow in flows if thorough else (flows[n % 3],):
+                    add(dict(exp_kind="dt", exp_days=d, exp_secs=s, ma_kind=kind, ma_neg=neg, ma_digits=digits, sync=True),
+                        {"exp_tz": spec, "proc_tz": ptz, "td_us": us}, flow)
+                n += 1
+        for (d, s) in [(0, 0), (0, 1), (11016, 86399), (20520, 25200), (24855, 11648), (2932895, 43199)]:
+            for fl in (False, True):
+                kind, neg, digits, us = mas[n % len(mas)]
+                for flow in flows if thorough else (flows[n % 3],):
+                    add(dict(exp_kind="ts", exp_days=d, exp_secs=s, ma_kind=kind, ma_neg=neg, ma_digits=digits, sync=True),
+                        {"exp_float": fl, "proc_tz": ptz, "td_us": us}, flow)
+                n += 1
+        for kind, neg, digits, us in mas[1:]:            # Expires derived from the clock
+            for flow in flows:
+                add(dict(ma_kind=kind, ma_neg=neg, ma_digits=digits, sync=True), {"proc_tz": ptz, "td_us": us}, flow)
+        add(dict(ma_kind="int", ma_neg=False, ma_digits=[6, 0], sync=False), {"proc_tz": ptz}, "dump_cookie")
+        add(dict(exp_kind="str", exp_text=cps("Wed, 21 Oct 2015 07:28:00 GMT")), {"proc_tz": ptz}, "dump_cookie")
+        add(dict(), {"proc_tz": ptz}, "response-delete")
+        add(dict(), {"proc_tz": ptz}, "client")
     return cases
